@@ -589,6 +589,11 @@ func init() {
 			{"config 0 1 1", "addref rec", "released 0", "setctx 2", "settle", "return 0 v 1 0", "quiesce", "return 1 v 1 0", "quiesce", "release 0", "quiesce"},
 			// D7: AddRef(nil) on a resolved container
 			{"config 0 1 1", "addref rec", "return 0 v 1 0", "settle", "addref nil", "addref quiet", "addref rec", "quiesce", "release 0", "release 1", "release 2", "release 3", "quiesce"},
+			// the zero value of T with a nil error is an ordinary result (seed C10-s3): invalidated by released(), by a
+			// context change and by the last Release, with recording references; error result with the zero value
+			{"config 0 1 1", "addref rec", "addref rec", "return 0 0 1 0", "settle", "released 0", "quiesce", "return 1 0 1 0", "settle", "setctx 2", "quiesce", "return 2 0 1 2", "settle", "released 2", "quiesce", "return 3 0 0 0", "settle", "released 3", "quiesce", "return 4 0 1 0", "settle", "release 0", "release 1", "quiesce"},
+			// keepUnref: kept value at zero references is dropped by released() and by a context change (seeds C09-s3, C10-s1)
+			{"config 1 1 1", "addref rec", "return 0 v 1 0", "settle", "release 0", "quiesce", "released 0", "quiesce", "addref rec", "return 1 v 1 0", "settle", "release 1", "quiesce", "setctx 2", "quiesce", "addref rec", "quiesce", "return 2 v 1 0", "quiesce"},
 			// keepUnref: value survives zero references, released() drops it, error result does not survive
 			{"config 1 1 1", "addref rec", "return 0 v 1 0", "settle", "release 0", "quiesce", "addref rec", "quiesce", "released 0", "quiesce", "return 1 v 1 2", "settle", "release 1", "quiesce"},
 			// released() racing the last Release; double release
